@@ -37,6 +37,7 @@ def environments(tier: str) -> List[Dict[str, Any]]:
         dict(name="seedrandom", hashseed="random", cwd="other", loc="a", store="noop", debug=False, graph=False, worker="pristine"),
         dict(name="forked", hashseed=None, cwd="home", loc="c", store="memory+lru", debug=False, graph=True, worker="forked"),
         dict(name="cells", hashseed=None, cwd="other", loc="cells", store="memory", debug=True, graph=False, worker="cells"),
+        dict(name="reload", hashseed=None, cwd="home", loc="a", store="memory", debug=False, graph=False, worker="reload"),
         # the pipeline as one file run as __main__, at two locations (content ids of their own)
         dict(name="script_a", hashseed="5", cwd="home", loc="a", store="memory", debug=True, graph=False, worker="pristine", script=True),
         dict(name="script_b", hashseed="77", cwd="other", loc="sb", store="local", debug=False, graph=True, worker="pristine", script=True),
@@ -67,6 +68,8 @@ def _env_task(a) -> Dict[str, Any]:
             shape.real["main_script"] = True
         if env["worker"] == "cells":
             obs = run_cells(shape, hist, root, env)
+        elif env["worker"] == "reload":
+            obs = run_cells(shape, hist, root, env, child=_reload_child)
         else:
             penv = None
             if env["worker"] == "pristine":
@@ -80,7 +83,7 @@ def _env_task(a) -> Dict[str, Any]:
         shutil.rmtree(os.path.join(base, "e%d_%s" % (idx, env["name"])), ignore_errors=True)
 
 
-def run_cells(shape: Shape, hist: List[Dict[str, Any]], root: str, env: Dict[str, Any]) -> Dict[int, Dict[str, Any]]:
+def run_cells(shape: Shape, hist: List[Dict[str, Any]], root: str, env: Dict[str, Any], child=None) -> Dict[int, Dict[str, Any]]:
     """Notebook placement: the functions are defined in IPython cells of one forked process; an
     edit re-runs the cell of what changed; every evaluation is preceded by a redefinition of one
     function in a later cell with identical source (must not change any signature)."""
@@ -90,7 +93,7 @@ def run_cells(shape: Shape, hist: List[Dict[str, Any]], root: str, env: Dict[str
         code = 0
         try:
             os.close(r)
-            res = _cells_child(shape, hist, root, env)
+            res = (child or _cells_child)(shape, hist, root, env)
             with os.fdopen(w, "wb") as f:
                 f.write(json.dumps(res).encode())
         except BaseException:
@@ -188,6 +191,73 @@ def _cells_child(shape: Shape, hist: List[Dict[str, Any]], root: str, env: Dict[
     return out
 
 
+def _reload_child(shape: Shape, hist: List[Dict[str, Any]], root: str, env: Dict[str, Any]) -> Dict[str, Any]:
+    """One long-lived process in which every edit is a rewrite of the module file followed by
+    importlib.reload (what an editor + autoreload session does): the redefined functions keep their file
+    name and line numbers, and after a cosmetic edit even their byte code (seeded change R7-C03)."""
+    import importlib
+    import linecache
+    sys.dont_write_bytecode = True       # same size + same second would otherwise revive a stale .pyc
+    import dds
+    import dds._api as api
+    from dds.store import MemoryStore
+    os.makedirs(root, exist_ok=True)
+    os.chdir(os.path.join(root, "cwd_" + env["cwd"]))
+    sys.path.insert(0, root)
+    dds.set_option("extra_debug", bool(env["debug"]))
+    ops: List[Any] = []
+    api._store_var = worker.make_recording_store(MemoryStore(), ops)
+    dds.accept_module(mat.PKG)
+    cur = None
+    mod = None
+    L = None
+    out: Dict[str, Any] = {}
+    for (h, rec) in enumerate(hist):
+        if rec["op"] != "eval":
+            continue
+        prog = dict(rec["prog"], layout="one")
+        files = mat.files_of(shape, prog)
+        if files != cur:
+            mat.write_tree(root, files)
+            linecache.clearcache()
+            importlib.invalidate_caches()
+            if mod is None:
+                mod = importlib.import_module(mat.PKG + ".m")
+                L = importlib.import_module("_vlog")
+            else:
+                for name in sorted(sys.modules):
+                    if name.split(".")[0] in (mat.PKG, mat.EXT_PKG) and getattr(sys.modules[name], "__file__", None) \
+                            and not sys.modules[name].__file__.endswith("__init__.py"):
+                        importlib.reload(sys.modules[name])
+                mod = sys.modules[mat.PKG + ".m"]
+            cur = files
+        del ops[:]
+        del L.LOG[:]
+        rootf = rec.get("root", shape.root)
+        rspec = [x for x in shape.roots if x["f"] == rootf][0]
+        o: Dict[str, Any] = {"op": "eval"}
+        try:
+            common.arm(120)
+            fun = getattr(mod, rootf)
+            args = [L.ARG_VALS[prog["rarg"][rec.get("ri", 1) - 1]]] if rspec.get("arg") else []
+            if rec["style"] == "direct":
+                r = fun(*args)
+            elif rec["style"] == "eval":
+                r = dds.eval(fun, *args)
+            else:
+                r = dds.keep(rspec["path"], fun, *args)
+            o["result"] = worker._norm(r)
+            o["err"] = None
+        except BaseException as e:
+            o["result"] = None
+            o["err"] = worker._exc_info(e)
+        o["log"] = list(L.LOG)
+        o["ops"] = list(ops)
+        out[str(h)] = o
+    common.disarm()
+    return out
+
+
 def run_corpus(corpus: str, env: Dict[str, Any]) -> Dict[str, Dict[str, str]]:
     """Evaluates every program of the corpus in a fresh interpreter; returns
     {"<program>::<evaluation>": {path: signature}}."""
@@ -252,7 +322,7 @@ def run_c03(tier: str) -> int:
     items = []
     for h in hs:
         eds = [x for x in h["hist"] if x["op"] == "edit"]
-        if eds and eds[-1]["kind"] not in ("var", "body", "arg"):
+        if eds and eds[-1]["kind"] not in ("var", "body", "arg", "cos"):
             continue
         items.append((byname[h["shape"]], h["hist"]))
     if tier == "quick":
@@ -264,6 +334,9 @@ def run_c03(tier: str) -> int:
         for (name, its) in sorted(per.items()):
             its.sort(key=lambda x: 0 if any(r["op"] == "edit" and r["kind"] == "var" for r in x[1]) else 1)
             items += its[:4]
+            # and one history per plan whose edit is cosmetic (a comment: same byte code, same lines)
+            cos = [x for x in its[4:] if any(r["op"] == "edit" and r["kind"] == "cos" for r in x[1])]
+            items += cos[:2]
     envs = environments(tier)
     base = common.sub_scratch("envs")
     tasks = []
